@@ -83,24 +83,32 @@ func (lp *loop) Redraw(full bool) {
 	if full {
 		lp.redrawFull = true
 	}
+	verifTrace("R1", full)
 	select {
 	case lp.redrawCh <- struct{}{}:
+		verifTrace("R2", true)
 	default:
+		verifTrace("R2", false)
 	}
 }
 
 // Input provides an input event. It may block if the internal event buffer is
 // full.
 func (lp *loop) Input(ev event) {
+	verifTrace("I1", ev)
 	lp.inputCh <- ev
+	verifTrace("I2", ev)
 }
 
 // Return requests the main loop to return. It never blocks. If Return has been
 // called before during the current loop iteration, it has no effect.
 func (lp *loop) Return(buffer string, err error) {
+	verifTrace("T1", buffer)
 	select {
 	case lp.returnCh <- loopReturn{buffer, err}:
+		verifTrace("T2", buffer, true)
 	default:
+		verifTrace("T2", buffer, false)
 	}
 }
 
@@ -120,30 +128,47 @@ func (lp *loop) Run() (buffer string, err error) {
 		if lp.extractRedrawFull() {
 			flag |= fullRedraw
 		}
+		verifTrace("D1", uint(flag))
 		lp.redrawCb(flag)
+		verifTrace("D2")
 		select {
 		case event := <-lp.inputCh:
+			verifTrace("SI", event)
 			// Consume all events in the channel to minimize redraws.
 		consumeAllEvents:
 			for {
+				verifTrace("H1", event)
 				lp.handleCb(event)
+				verifTrace("H2")
 				select {
 				case ret := <-lp.returnCh:
+					verifTrace("PR", ret.buffer)
+					verifTrace("F1", uint(finalRedraw))
 					lp.redrawCb(finalRedraw)
+					verifTrace("F2")
+					verifTrace("RET", ret.buffer)
 					return ret.buffer, ret.err
 				default:
+					verifTrace("PR0")
 				}
 				select {
 				case event = <-lp.inputCh:
+					verifTrace("PI", event)
 					// Continue the loop of consuming all events.
 				default:
+					verifTrace("PI0")
 					break consumeAllEvents
 				}
 			}
 		case ret := <-lp.returnCh:
+			verifTrace("SR", ret.buffer)
+			verifTrace("F1", uint(finalRedraw))
 			lp.redrawCb(finalRedraw)
+			verifTrace("F2")
+			verifTrace("RET", ret.buffer)
 			return ret.buffer, ret.err
 		case <-lp.redrawCh:
+			verifTrace("ST")
 		}
 	}
 }
@@ -154,5 +179,6 @@ func (lp *loop) extractRedrawFull() bool {
 
 	full := lp.redrawFull
 	lp.redrawFull = false
+	verifTrace("X", full)
 	return full
 }
